@@ -191,10 +191,58 @@ def controls():
     return Crate(fact)
 
 
+CANONICAL = os.path.join(os.path.dirname(os.path.dirname(os.path.abspath(__file__))), "canonical_paths.json")
+
+
+def _moved_items(d):
+    """{current path: canonical path} for the types and free functions of the library that live in another module than on the
+    pinned tree (same name, unique in the crate): rules name items by their canonical path, so a module move is undone in the facts"""
+    try:
+        canon = json.load(open(CANONICAL))
+    except (OSError, ValueError):
+        return {}
+    cur = {"types": {}, "fns": {}}
+    mods = {m["path"] for m in d["items"].get("modules", [])}
+    for k in ("structs", "enums", "traits"):
+        for it in d["items"].get(k, []):
+            p_ = it["path"]
+            if p_.startswith("<") or "{" in p_ or "yaserde_tests" in p_ or "::tests::" in p_ or "test_utils" in p_:
+                continue
+            cur["types"].setdefault(p_.rsplit("::", 1)[-1], set()).add(p_)
+    for f_ in d["items"].get("fns", []):
+        p_ = f_["path"]
+        if p_.startswith("<") or "{" in p_ or "yaserde_tests" in p_ or "::tests::" in p_ or "test_utils" in p_ or "::" not in p_:
+            continue
+        if p_.rsplit("::", 1)[0] in mods:
+            cur["fns"].setdefault(p_.rsplit("::", 1)[-1], set()).add(p_)
+    out = {}
+    for kind in ("types", "fns"):
+        for last, want in canon.get(kind, {}).items():
+            have = cur[kind].get(last, set())
+            if len(have) == 1:
+                p_ = next(iter(have))
+                if p_ != want:
+                    out[p_] = want
+    return out
+
+
+def _rewrite_paths(text, mapping, prefix=""):
+    import re
+    for old_ in sorted(mapping, key=len, reverse=True):
+        pat = re.compile(r"(?<![A-Za-z0-9_])" + (re.escape(prefix) if prefix else r"(?<!::)") + re.escape(old_) + r"(?![A-Za-z0-9_])")
+        text = pat.sub(lambda m_: prefix + mapping[old_], text)
+    return text
+
+
 class Crate:
-    def __init__(self, path):
+    def __init__(self, path, moved=None):
         with open(path) as f:
-            d = json.load(f)
+            raw = f.read()
+        d = json.loads(raw)
+        self.moved = moved if moved is not None else (_moved_items(d) if d.get("crate") == "zeep_lib" else {})
+        if self.moved:
+            raw = _rewrite_paths(raw, self.moved, prefix="" if d.get("crate") == "zeep_lib" else "zeep_lib::")
+            d = json.loads(raw)
         self.name = d["crate"]
         self.items = d["items"]
         self.defs = d["defs"]
@@ -233,7 +281,7 @@ class Facts:
             self.dir = generate(self.root, force=bool(attempt))
             try:
                 self.lib = Crate(os.path.join(self.dir, "zeep_lib.json"))
-                self.bin = Crate(os.path.join(self.dir, "zeep.json"))
+                self.bin = Crate(os.path.join(self.dir, "zeep.json"), moved=self.lib.moved)
                 break
             except (OSError, ValueError) as e:
                 # the cached fact set vanished or is damaged (cache cleaned by a concurrent run): regenerate once
